@@ -185,7 +185,7 @@ def lang_plan(ctx, props, san=False, extra_rule="", syntax=False, sample_m=0):
 
 def plan_C06(ctx):
     ctx.assumptions = ["token spellings per syntax are a table of the harness transcribed from the two lexer specifications",
-                       "trees are limited to the constructor set of Gen_Lang (no global declarations / function definitions yet)"]
+                       "trees are limited to the constructor set of Gen_Lang (function definitions with one or two declared arguments; no global declarations)"]
     lang_plan(ctx, ["C06"], syntax=True, extra_rule="C06 compares the parsed tree with the specification tree and every node range with the span "
               "of its production; FindMinimalNode must return an innermost node.")
 
@@ -197,7 +197,7 @@ def plan_C05(ctx):
 
 def plan_C03(ctx):
     ctx.assumptions = ["error codes and positions inside the expression are not compared (drift level)",
-                       "value class and declared arguments of function definitions are not yet covered by the generator"]
+                       "value classes and declared arguments are compared for the function definitions of SeedFunc and for every accepted tree (VClass)"]
     lang_plan(ctx, ["C03"], sample_m=24, extra_rule="C03 compares the verdict and the typification string with RSTyping.TypeOf.")
 
 
